@@ -24,7 +24,7 @@ type valueSpec struct {
 var intPool = []string{"0", "1", "-1", "255", "256", "257", "65535", "65536", "65537", "2147483647", "2147483648", "-2147483648", "-2147483649",
 	"4294967295", "4294967296", "9223372036854775807", "9223372036854775808", "-9223372036854775808", "18446744073709551616", "123456789012345678901234567890"}
 
-var valueKinds = []string{"int", "int", "int", "str", "str", "bytes", "float", "bool", "list", "tuple", "dict", "set", "nested", "shared", "big", "strlen"}
+var valueKinds = []string{"int", "int", "int", "str", "str", "bytes", "float", "bool", "list", "tuple", "dict", "set", "nested", "numtype", "big", "strlen", "shared", "booltype"}
 
 // render gives a Starlark expression; different V always gives a different value.
 func (v valueSpec) render() string {
@@ -68,6 +68,11 @@ func (v valueSpec) render() string {
 	case "bigset":
 		sizes := []int{1000, 1001, 2001}
 		return fmt.Sprintf("(\"before\", set(range(%d)), %d)", sizes[((n%3)+3)%3], n)
+	case "numtype":
+		// the same number as an int and as a float: equal under ==, different values
+		return []string{"7", "7.0", "8", "8.0"}[((n%4)+4)%4]
+	case "booltype":
+		return []string{"1", "True", "0", "False"}[((n%4)+4)%4]
 	case "floatspecial":
 		return []string{"float(\"nan\")", "float(\"inf\")", "-0.0", "float(\"-inf\")", "1e308", "5e-324"}[((n%6)+6)%6]
 	case "memo255":
@@ -118,7 +123,8 @@ type moduleSpec struct {
 	Yields  int          `json:"yields,omitempty"`
 	Comment int          `json:"comment_v,omitempty"`
 	Blank   int          `json:"blank_v,omitempty"`
-	Fails   bool         `json:"fails,omitempty"` // the module fails while it loads (after its loads and yields)
+	Fails   bool         `json:"fails,omitempty"`    // the module fails while it loads (after its loads and yields)
+	FailHow int          `json:"fail_how,omitempty"` // 0 fail() at run time, 1 syntax error, 2 undefined name
 }
 
 func (m *moduleSpec) label() string {
@@ -280,7 +286,14 @@ func (m *moduleSpec) render(p *projSpec) string {
 		fmt.Fprintf(&sb, "%s = %s\n", c.Name, c.Val.render())
 	}
 	if m.Fails {
-		fmt.Fprintf(&sb, "fail(\"module %s is broken\")\n", m.File)
+		switch m.FailHow {
+		case 1:
+			sb.WriteString("def broken(:\n    pass\n")
+		case 2:
+			sb.WriteString("X_BROKEN = UNDEFINED_NAME_IN_" + strings.ToUpper(strings.TrimSuffix(m.File, ".dawn")) + "\n")
+		default:
+			fmt.Fprintf(&sb, "fail(\"module %s is broken\")\n", m.File)
+		}
 	}
 	for _, f := range m.Funcs {
 		fmt.Fprintf(&sb, "\ndef %s(n = 0):\n", f.Name)
@@ -359,6 +372,10 @@ func (p *projSpec) renderBuild(pk *pkgSpec) string {
 		fmt.Fprintf(&sb, "EXTRA_%d = %d\n", i, i)
 	}
 	for _, g := range pk.Globals {
+		if g.Val.Kind == "cyclicdict" {
+			fmt.Fprintf(&sb, "%s = {\"n\": %d}\n%s[\"self\"] = %s\n", g.Name, g.Val.V, g.Name, g.Name)
+			continue
+		}
 		if g.Val.Kind == "cyclic" {
 			fmt.Fprintf(&sb, "%s = [%d]\n%s.append(%s)\n", g.Name, g.Val.V, g.Name, g.Name)
 			continue
@@ -378,6 +395,11 @@ func (p *projSpec) renderBuild(pk *pkgSpec) string {
 		}
 		sb.WriteString("\n")
 		sb.WriteString(p.renderTarget(t))
+		for _, r := range t.Refs {
+			if r.Kind == "lateglobal" {
+				fmt.Fprintf(&sb, "\nLATE_%s = %s\n\ndef late_%s():\n    return (LATE_%s, %s)\n", t.Name, r.Val.render(), t.Name, t.Name, r.Val2.render())
+			}
+		}
 	}
 	return sb.String()
 }
@@ -448,6 +470,11 @@ func (p *projSpec) renderTarget(t *targetSpec) string {
 			args = append(args, t.Name+".label")
 		case "twins":
 			args = append(args, fmt.Sprintf("TW_%s_a()", t.Name), fmt.Sprintf("TW_%s_b()", t.Name))
+		case "lateglobal":
+			// a helper and a constant defined BELOW the target in the same file
+			args = append(args, fmt.Sprintf("late_%s()", t.Name))
+		case "structfn":
+			args = append(args, fmt.Sprintf("RULES_%s.render()", t.Name))
 		case "cacheonce":
 			pre = append(pre, fmt.Sprintf("    CACHE0.once(\"k_%s\", lambda: %s)", t.Name, r.Val.render()))
 			args = append(args, "CACHE0")
@@ -483,10 +510,16 @@ func (p *projSpec) renderTarget(t *targetSpec) string {
 			fmt.Fprintf(&sb, "TW_%s_a = mk_%s(%s)\nTW_%s_b = mk_%s(%s, d = %s)\n\n", t.Name, t.Name, r.Val.render(), t.Name, t.Name, r.Val.render(), r.Val2.render())
 		}
 	}
+	for i := range t.Refs {
+		if r := &t.Refs[i]; r.Kind == "structfn" {
+			fmt.Fprintf(&sb, "def _render_%s():\n    return %s\n\nRULES_%s = struct(render = _render_%s, name = %q)\n\n", t.Name, r.Val.render(), t.Name, t.Name, t.Name)
+		}
+	}
 	form := t.Form
 	if free != nil {
 		form = "closure"
 	}
+	defer func() {}()
 	switch form {
 	case "closure":
 		v := "0"
